@@ -11,6 +11,7 @@
 import Hg.Proofs.TreeLaws3
 import Hg.Proofs.DenoteLaws
 import Hg.Props.Examples
+import Hg.Proofs.CountTLaws
 
 namespace Hg.C02
 
@@ -78,5 +79,20 @@ open Hg.Ex in
 open Hg.Ex in
 #guard decide (fillAll z (s1 ++ s2) = denote z (s1 ++ s2)) && goodRun z (s1 ++ s2)
 example : (Val.nan).pos = false ∧ (Val.fin 0).pos = false ∧ (Val.fin (-1)).pos = false := by decide +kernel
+
+/-- a Count with **any** weight transform `f` (`Hg.Model.CountT`): what it holds after any stream is the sum of `f w` over
+the records whose weight passes the gate `weight > 0` — the gate is on the weight handed to fill, not on what the
+transform makes of it -/
+theorem count_transform_spec {W : Type} (pos : W → Bool) (f : W → Rat) (ws : List W) :
+    CountT.fillAll pos f 0 ws = CountT.sumR ((ws.filter pos).map f) := by
+  rw [CountT.fillAll_eq_np]; simp [CountT.fillNp]
+
+/-- … and a fill whose weight does not pass the gate changes nothing, whatever the transform -/
+theorem count_transform_gate {W : Type} (pos : W → Bool) (f : W → Rat) (c : Rat) (w : W) (h : pos w = false) :
+    CountT.fill pos f c w = c := by
+  simp [CountT.fill, h]
+
+example : CountT.fillAll Val.pos (fun w => match w with | .fin q => q * q | _ => 0) 0
+    [.fin 2, .fin (-3), .fin (1/2), .fin 0, .nan] = 17/4 := by decide +kernel
 
 end Hg.C02
